@@ -89,15 +89,47 @@ def primaryOf (cfg : Cfg) (s : St) : String :=
 def target (cfg : Cfg) (req : Req) (m : Manifest) : String :=
   (lookup m.entries (cfg.bump m.signing)).getD (objName cfg req)
 
-/-- Precondition on the request: the object the new certificate goes to is not one the durable state
-    depends on (the manifest, the root certificate, the primary's certificate).  With the CLI's default
-    serial (current + 1) the object name is new, or a leftover of a failed attempt. -/
+/-- Precondition on the request: the object the new certificate goes to is neither the manifest nor the
+    root certificate object (certificate objects live under `certDir` and end in ".crt", so this only
+    excludes configurations in which `rootPath` itself looks like a certificate object).  The object that
+    holds the PRIMARY's certificate is no longer excluded: gcsca.upload refuses it (`claimed`). -/
 def Fresh (cfg : Cfg) (req : Req) (s : St) : Prop :=
   match cfg.ca with
   | .memca => True
   | .gcsca => ∀ m, lookup s.store manifestName = some (.manifest m) →
-      target cfg req m ≠ manifestName ∧ target cfg req m ≠ cfg.rootPath ∧
-      ∀ p, lookup m.entries m.signing = some p → target cfg req m ≠ p
+      target cfg req m ≠ manifestName ∧ target cfg req m ≠ cfg.rootPath
+
+/-- gcsca.upload will refuse the rotation's certificate: the stored manifest records the target object
+    for a key version other than the new one -/
+def claimed (cfg : Cfg) (req : Req) (m : Manifest) : Bool :=
+  heldByOther m (target cfg req m) (cfg.bump m.signing)
+
+/-- the request does not name a certificate object that another key version holds (needed for a
+    rotation to SUCCEED; not needed for failure atomicity) -/
+def Unclaimed (cfg : Cfg) (req : Req) (s : St) : Prop :=
+  match cfg.ca with
+  | .memca => True
+  | .gcsca => ∀ m, lookup s.store manifestName = some (.manifest m) → claimed cfg req m = false
+
+/-- the opposite: the stored manifest records the target object for another key version -/
+def Claimed (cfg : Cfg) (req : Req) (s : St) : Prop :=
+  cfg.ca = .gcsca ∧ ∃ m, lookup s.store manifestName = some (.manifest m) ∧ claimed cfg req m = true
+
+theorem heldByOther_of_lookup {m : Manifest} {k p kvn : String} (h : lookup m.entries k = some p) (hk : k ≠ kvn) :
+    heldByOther m p kvn = true := by
+  unfold heldByOther
+  rw [List.any_eq_true]
+  have key : ∀ l : List (String × String), lookup l k = some p → (k, p) ∈ l := by
+    intro l
+    induction l with
+    | nil => intro h; simp [lookup] at h
+    | cons hd t ih =>
+      obtain ⟨k', v⟩ := hd
+      intro h
+      by_cases e : k' = k
+      · simp [lookup, e] at h; rw [e, h]; exact List.mem_cons_self
+      · simp [lookup, e] at h; exact List.mem_cons_of_mem _ (ih h)
+  exact ⟨(k, p), key _ h, by simp [hk]⟩
 
 theorem InvG.transfer {cfg : Cfg} {m : Manifest} {r c : Cert} {path : String} {s s' : St}
     (h : InvG cfg m r c path s) (h1 : s'.store = s.store) (h2 : s'.keys = s.keys) :
@@ -127,6 +159,10 @@ theorem Inv_reload (cfg : Cfg) (s : St) : Inv cfg s.reload ↔ Inv cfg s := by
 
 theorem Fresh_reload (cfg : Cfg) (req : Req) (s : St) : Fresh cfg req s.reload ↔ Fresh cfg req s := by
   unfold Fresh
+  cases cfg.ca <;> exact Iff.rfl
+
+theorem Unclaimed_reload (cfg : Cfg) (req : Req) (s : St) : Unclaimed cfg req s.reload ↔ Unclaimed cfg req s := by
+  unfold Unclaimed
   cases cfg.ca <;> exact Iff.rfl
 
 /-- exceptional postcondition used throughout: the durable invariant and destroy-after-commit -/
